@@ -1232,14 +1232,24 @@ package serf
 //@   logcalls keyresponse
 //@   requires wf: wfInternalQuery(s, q) && resp != nil && allocated(resp) && len(resp.Keys) >= 0 && (nilSlice(resp.Keys) ==> len(resp.Keys) == 0)
 //@ end
+//@ import "fmt"
 //@ func (s *serfQueries) keyListResponseWithCorrectSize(q *Query, resp *nodeKeyResponse) (raw []byte, qresp messageQueryResponse, err error)
 //@   requires wf: wfInternalQuery(s, q) && resp != nil && allocated(resp) && len(resp.Keys) >= 0 && (nilSlice(resp.Keys) ==> len(resp.Keys) == 0)
 //@   # a node's key-listing reply never exceeds the response size limit
 //@   ensures reply_fits [C23,C33]: err == nil ==> len(raw) <= q.serf.config.QueryResponseSizeLimit
 //@   ensures keys_only_truncated [C23]: len(resp.Keys) <= old(len(resp.Keys))
+//@   # what is listed is a prefix of the node's keys, and a truncated reply says how many it shows out of how many
+//@   oldlet actual := len(resp.Keys)
+//@   oldlet keys0 := resp.Keys
+//@   oldlet msg0 := resp.Message
+//@   ensures lists_a_prefix [C23]: sameArray(resp.Keys, keys0)
+//@   ensures says_how_many_of_how_many [C23]: len(resp.Keys) < actual ==>
+//@       resp.Message == fmt.Sprintf("truncated key list response, showing first %d of %d keys", len(resp.Keys), actual)
 //@   loop 1 vars i int
 //@   loop 1 invariant bounds: i <= len(resp.Keys) && (nilSlice(resp.Keys) ==> len(resp.Keys) == 0)
-//@   loop 1 invariant shrinking [C23]: len(resp.Keys) <= old(len(resp.Keys))
+//@   loop 1 invariant shrinking [C23]: len(resp.Keys) <= old(len(resp.Keys)) && sameArray(resp.Keys, keys0)
+//@   loop 1 invariant counted [C23]: (len(resp.Keys) == actual && resp.Message == msg0) ||
+//@       (len(resp.Keys) == i+1 && resp.Message == fmt.Sprintf("truncated key list response, showing first %d of %d keys", len(resp.Keys), actual))
 //@ end
 //@ func decodeKeyRequest(q *Query, req *keyRequest) (err error)
 //@   requires wf: q != nil && req != nil
@@ -1500,6 +1510,12 @@ package serf
 //@ end
 //@ func (s *Snapshotter) appendLine(l string) (err error)
 //@   requires wf: wfSnap(s)
+//@   # a clock record (the only lines starting with c, e or q) is appended only once memory holds that clock value: the
+//@   # append may trigger a compaction, which writes the clocks from memory -- a record ahead of memory would be lost with
+//@   # the old file; sprintfArg reads the number back from the text (distinct numbers print differently)
+//@   requires clock_records_follow_memory [C14]: (strFirst(l) == 'c' ==> LamportTime(sprintfArg("clock: %d\n", l)) <= s.lastClock) &&
+//@       (strFirst(l) == 'e' ==> LamportTime(sprintfArg("event-clock: %d\n", l)) <= s.lastEventClock) &&
+//@       (strFirst(l) == 'q' ==> LamportTime(sprintfArg("query-clock: %d\n", l)) <= s.lastQueryClock)
 //@   # the snapshot may be rewritten from memory in here: what a leave made the recorder forget must be forgotten by now
 //@   requires left_means_forgotten [C13]: leaveRemembered(s)
 //@   ensures leave_state_untouched [C13]: s.leaving == old(s.leaving) && s.rejoinAfterLeave == old(s.rejoinAfterLeave) && leaveRemembered(s)
@@ -1510,6 +1526,12 @@ package serf
 //@ func (s *Snapshotter) tryAppend(l string)
 //@   logcalls snapappend
 //@   requires wf: wfSnap(s)
+//@   # a clock record (the only lines starting with c, e or q) is appended only once memory holds that clock value: the
+//@   # append may trigger a compaction, which writes the clocks from memory -- a record ahead of memory would be lost with
+//@   # the old file; sprintfArg reads the number back from the text (distinct numbers print differently)
+//@   requires clock_records_follow_memory [C14]: (strFirst(l) == 'c' ==> LamportTime(sprintfArg("clock: %d\n", l)) <= s.lastClock) &&
+//@       (strFirst(l) == 'e' ==> LamportTime(sprintfArg("event-clock: %d\n", l)) <= s.lastEventClock) &&
+//@       (strFirst(l) == 'q' ==> LamportTime(sprintfArg("query-clock: %d\n", l)) <= s.lastQueryClock)
 //@   # the snapshot may be rewritten from memory in here: what a leave made the recorder forget must be forgotten by now
 //@   requires left_means_forgotten [C13]: leaveRemembered(s)
 //@   ensures leave_state_untouched [C13]: s.leaving == old(s.leaving) && s.rejoinAfterLeave == old(s.rejoinAfterLeave) && leaveRemembered(s)
